@@ -19,6 +19,7 @@ import Driver.SuiteMisc
 import Driver.SuiteSilkCore
 import Driver.SuiteSilkResamp
 import Driver.SuiteSilkPlc
+import Driver.SuiteSilkApi
 /-
   `opusmodel check` reads the combined stream written by a C harness:
      I <suite> <op> <args…>      an operation and its arguments
@@ -52,6 +53,7 @@ def dispatch (line : String) : String :=
   | "silkcore" :: args => SuiteSilkCore.handle args
   | "silkresamp" :: args => SuiteSilkResamp.handle args
   | "silkplc" :: args => SuiteSilkPlc.handle args
+  | "silkapi" :: args => SuiteSilkApi.handle args
   | _ => "bad-suite"
 
 structure Stats where
